@@ -393,7 +393,7 @@ fn c05_role(s: &str) -> Role {
 macro_rules! c05_tamper_impl {
     ($name:ident, $v:ty) => {
         #[allow(clippy::too_many_arguments)]
-        async fn $name<const SHARDS: usize>(seed: u64, nrows: usize, attacker: Role, gate: String, dest: Role, byte: usize, mask: u8, nth: usize) -> String {
+        async fn $name<const SHARDS: usize>(seed: u64, nrows: usize, attacker: Role, gate: String, dest: Role, bytes: Vec<usize>, mask: u8, nth: usize) -> String {
             let mut rng = Rng(seed ^ 0xC05);
             let mut config = TestWorldConfig::default().with_seed(seed);
             let seen = Arc::new(AtomicUsize::new(0));
@@ -403,8 +403,11 @@ macro_rules! c05_tamper_impl {
                 if ctx.gate.as_ref().contains(gate.as_str()) && ctx.dest == dest && !data.is_empty() {
                     let k = seen2.fetch_add(1, Ordering::SeqCst);
                     if k == nth {
-                        let i = byte % data.len();
-                        data[i] ^= mask;
+                        // `b1+b2+…`: the same difference in several bytes of the message (correlated words of one row)
+                        for byte in &bytes {
+                            let i = byte % data.len();
+                            data[i] ^= mask;
+                        }
                         hits2.fetch_add(1, Ordering::SeqCst);
                     }
                 }
@@ -464,15 +467,15 @@ fn c05_exec_tamper(t: &[&str]) -> String {
     let attacker = c05_role(t[5]);
     let gate = t[6].to_string();
     let dest = c05_role(t[7]);
-    let byte: usize = t[8].parse().unwrap();
+    let byte: Vec<usize> = t[8].split('+').map(|b| b.parse().unwrap()).collect();
     let mask: u8 = t[9].parse().unwrap();
     let nth: usize = t[10].parse().unwrap();
     macro_rules! go {
         ($f:ident) => {
             match shards {
-                1 => c05_run(45, $f::<1>(seed, nrows, attacker, gate, dest, byte, mask, nth)),
-                2 => c05_run(45, $f::<2>(seed, nrows, attacker, gate, dest, byte, mask, nth)),
-                3 => c05_run(45, $f::<3>(seed, nrows, attacker, gate, dest, byte, mask, nth)),
+                1 => c05_run(45, $f::<1>(seed, nrows, attacker, gate, dest, byte.clone(), mask, nth)),
+                2 => c05_run(45, $f::<2>(seed, nrows, attacker, gate, dest, byte.clone(), mask, nth)),
+                3 => c05_run(45, $f::<3>(seed, nrows, attacker, gate, dest, byte.clone(), mask, nth)),
                 s => panic!("harness: unsupported shard count {s}"),
             }
         };
@@ -736,6 +739,23 @@ fn c05_gen_tamper(rng: &mut Rng, thorough: bool) -> Vec<String> {
     }
     push(32, 2, rng.next_u64(), 0, attacks[4], 0, 1, 0);
     push(64, 3, rng.next_u64(), 0, attacks[4], 0, 2, 0);
+    drop(push);
+    // the same difference in two (three) 32-bit words of ONE row: detected only if the words have independent MAC keys.
+    // Row layout in a table message: row bytes, then the 4-byte tag (BA64: 8+4, BA112: 14+4).
+    for (j, a) in attacks[..4].iter().enumerate() {
+        for (bits, bytes) in [(64u32, "0+4"), (64, "3+7"), (112, "0+4"), (112, "1+9"), (112, "4+8+12"), (112, "0+12")] {
+            for shards in [1usize, 3] {
+                if !thorough && (j + shards + bytes.len() + bits as usize / 16) % 2 == 1 {
+                    continue;
+                }
+                let mask = 1u8 << rng.below(8);
+                out.push(format!("c05.tamper {bits} {shards} {} {} {} {} {} {bytes} {mask} 0", rng.next_u64(), [5usize, 40][j % 2], a.0, a.1, a.2));
+            }
+        }
+    }
+    let mut push = |bits: u32, shards: usize, seed: u64, n: usize, a: (&str, &str, &str), byte: usize, mask: u8, nth: usize| {
+        out.push(format!("c05.tamper {bits} {shards} {seed} {n} {} {} {} {byte} {mask} {nth}", a.0, a.1, a.2));
+    };
     for _ in 0..(if thorough { 150 } else { 20 }) {
         let a = *rng.pick(&attacks[..4]);
         let bits = *rng.pick(&[32u32, 64, 112]);
